@@ -18,6 +18,7 @@ RULE = ('exhaustive grid of 64 primary opcodes x 1024 extended opcodes (bits 21-
         'mnemonic against the architectural table, bin() fixpoint, str(), asm(str()) fixpoint. A case = the 32-bit word; non-trivial = exactly '
         'one class claims it and it decodes (the fixpoints were evaluated).')
 RULE += ' Round 9: compare families (cmp, cmpl, cmpi, cmpli, fcmpu, fcmpo, mcrf) x all 8 CR fields x distinct and equal source registers.'
+RULE += ' Round 10: the previous decoded object of each class is asked for bin() and str() again after the next word of that class has been decoded (decoded objects stay valid while others are alive); a sample of the grid goes through a child interpreter started with -O, which must decode, re-encode, render and re-assemble every word exactly as the normal interpreter does.'
 ASSUMPTIONS = ['the (primary, extended opcode) -> mnemonic table in vf/ppcref.py is the 32-bit PowerPC (603) assignment; every row llvm-mc 14 knows is '
                'checked against llvm-mc -mcpu=603 -show-encoding on each run (a contradicted row makes the check inconclusive)']
 
@@ -147,6 +148,58 @@ def check_word(sh, w, tables, P, cls=None):
                      'asm(%r) = %s, expected 0x%08x (differs in bits %s)' % (txt, ['0x%08x' % g for g in got], w, bits(w ^ got[0]) if got else '-'), wit)
     if len(sh.samples) < 3:
         sh.sample({'word': '0x%08x' % w, 'class': cname, 'text': txt, 'architecture': arch})
+    # decoded objects stay valid while later words are decoded: the previous object of the same class is asked again
+    prev = LIVE.get(cname)
+    if prev is not None and prev[1] != w:
+        pm, pw, pb, ptxt = prev
+        sh.counters['live_objects_requeried'] += 1
+        try:
+            nb, ntxt = pm.bin(), str(pm)
+        except Exception as e:
+            nb, ntxt = 'raises:' + type(e).__name__, None
+        if (nb, ntxt) != (pb, ptxt):
+            sh.violation('live-object-changed/%s' % cname, 'ppc_mn(0x%08x) gave bin()=%s str()=%r; after ppc_mn(0x%08x) was decoded the same object gives bin()=%s str()=%r' % (
+                pw, '0x%08x' % pb if isinstance(pb, int) else pb, ptxt, w, '0x%08x' % nb if isinstance(nb, int) else nb, ntxt), dict(wit, previous='%08x' % pw))
+    try:
+        LIVE[cname] = (m, w, m.bin(), txt)
+    except Exception:
+        LIVE.pop(cname, None)
+
+
+LIVE = {}
+
+
+def run_optimised(sh, part, tier, seed):
+    """Interpreter-flag differential: a sample of the words through a child interpreter started with -O must decode, re-encode,
+    render and re-assemble exactly as in the normal interpreter (no part of the decoder may live in an assert)."""
+    import subprocess, json, sys, os
+    from miasmx.arch import ppc_arch as P
+    from vf import optchild
+    words = []
+    for p in range(part, 64, 4):
+        ws = [w for w, kind in words_for(p, 'quick', seed)]
+        step = max(1, len(ws) // (60 if tier == 'quick' else 600))
+        words += ws[::step]
+    env = dict(os.environ, PYTHONPATH=common.REPO, PYTHONDONTWRITEBYTECODE='1', PYTHONHASHSEED='0')
+    try:
+        r = subprocess.run([sys.executable, '-O', os.path.join(common.VERIF, 'vf', 'optchild.py')], input=json.dumps({'ppc_words': words}).encode(),
+                           env=env, stdout=subprocess.PIPE, stderr=subprocess.PIPE, timeout=1800)
+        rep = json.loads(r.stdout.decode())
+    except Exception as e:
+        sh.counters['optimised_child_failed'] += 1
+        sh.extra.setdefault('inconclusive', []).append('python -O child failed: %r' % (e,))
+        return
+    if rep.get('optimize', 0) < 1:
+        sh.extra.setdefault('inconclusive', []).append('python -O child did not run optimised')
+        return
+    for w, got in zip(words, rep['results']):
+        want = json.loads(json.dumps(optchild.ppc_outcome(P, w)))
+        nontrivial = bool(want and want[0] and not str(want[0]).startswith('decode-raises'))
+        sh.case(('O', w), nontrivial, cls='optimised/%s' % (want[0] if nontrivial else 'rejected'))
+        if got != want:
+            k = [i for i in range(max(len(got), len(want))) if i >= len(got) or i >= len(want) or got[i] != want[i]][0]
+            sh.violation('python-O/%s/%s' % (['decode', 'bin', 'str', 'asm'][min(k, 3)], want[0] if want and isinstance(want[0], str) else 'rejected'),
+                         'word 0x%08x: the normal interpreter gives %r, python -O gives %r' % (w, want, got), {'word': '%08x' % w, 'optimised': True})
 
 
 def bits(x):
@@ -230,12 +283,15 @@ def words_for(primary, tier, seed):
 
 
 def shards(tier, seed):
-    return [('p', p) for p in range(64)]
+    return [('p', p) for p in range(64)] + [('optimised', p) for p in range(4)]
 
 
 def run_shard(shard, tier, seed):
     from miasmx.arch import ppc_arch as P
     sh = common.Shard()
+    if shard[0] == 'optimised':
+        run_optimised(sh, shard[1], tier, seed)
+        return sh
     tables = ppcref.lookup_tables()
     p = shard[1]
     for w, kind in words_for(p, tier, seed):
@@ -250,11 +306,19 @@ def finalize(merged, tier, seed):
                         'architected_opcodes_no_class_claims': sorted(merged.extra.get('unclaimed_architected', []))}}
     if bad:
         out['inconclusive'] = ['architectural table contradicted by llvm-mc: %s' % bad]
+    if merged.extra.get('inconclusive'):
+        out.setdefault('inconclusive', []).extend(merged.extra['inconclusive'])
     return out
 
 
 def replay(w):
     from miasmx.arch import ppc_arch as P
     sh = common.Shard()
+    if w.get('optimised'):
+        for part in range(4):
+            run_optimised(sh, part, 'quick', 0)
+        return [(v['key'], v['detail']) for v in sh.violations if v['witness'].get('word') == w['word']]
+    if w.get('previous'):
+        check_word(sh, int(w['previous'], 16), ppcref.lookup_tables(), P)
     check_word(sh, int(w['word'], 16), ppcref.lookup_tables(), P)
     return [(v['key'], v['detail']) for v in sh.violations]
